@@ -190,40 +190,46 @@ def tradeable (st : State) (a : Nat) : Except Err Plan :=
     else if st.now < p.startTime then .error .notStarted
     else .ok p
 
+/-- start time of a new plan: requested time, not before now; unset when trading is not enabled -/
+def planStart (enabled : Bool) (startTime now : Int) : Int :=
+  if enabled then (if startTime < now then now else startTime) else 0
+def planPre (enabled : Bool) (start planDur : Int) : Int := if enabled then start + planDur else 0
+
+/-- all checks of MsgCreatePlan.ValidateBasic, msgServer.CreatePlan, Keeper.CreatePlan and
+    Plan.ValidateBasic that the harness can reach (every failure is the class `rej`) -/
+def createOk (I : Int → Int) (st : State) (alloc mRaw nRaw cRaw : Int) (L : Nat) (enabled : Bool)
+    (startTime planDur : Int) (liqPart : Dec) (vestDur vestStartAfter : Int) : Prop :=
+  -- MsgCreatePlan.ValidateBasic
+  curveValid mRaw nRaw cRaw = true ∧ 10 * oneToken < alloc ∧ 0 ≤ planDur ∧
+  0 ≤ liqPart.raw ∧ liqPart.raw ≤ decP ∧ 0 ≤ vestDur ∧ 0 ≤ vestStartAfter ∧
+  -- msgServer.CreatePlan
+  st.cfg.minPlanDur ≤ planDur ∧ st.cfg.minLiqPart.raw ≤ liqPart.raw ∧ st.cfg.minVestDur ≤ vestDur ∧
+  st.plan = none ∧ alloc = st.cfg.genAlloc ∧ L = st.cfg.liqDec ∧
+  -- Plan.ValidateBasic
+  planStart enabled startTime st.now ≤ planPre enabled (planStart enabled startTime st.now) planDur ∧
+  0 < findEquilibrium mRaw nRaw alloc liqPart ∧ findEquilibrium mRaw nRaw alloc liqPart ≤ alloc ∧
+  -- Keeper.CreatePlan: the creation fee is charged as a purchase of `creationFee` tokens
+  0 < cost I L 0 st.cfg.creationFee ∧ cost I L 0 st.cfg.creationFee ≤ st.liq 0
+
+instance (I : Int → Int) (st : State) (alloc mRaw nRaw cRaw : Int) (L : Nat) (enabled : Bool)
+    (startTime planDur : Int) (liqPart : Dec) (vestDur vestStartAfter : Int) :
+    Decidable (createOk I st alloc mRaw nRaw cRaw L enabled startTime planDur liqPart vestDur vestStartAfter) := by
+  unfold createOk
+  cases st.plan <;> infer_instance
+
 def doCreate (I : Int → Int) (st : State) (alloc mRaw nRaw cRaw : Int) (L : Nat) (enabled : Bool)
     (startTime planDur : Int) (liqPart : Dec) (vestDur vestStartAfter : Int) : Except Err State :=
-  -- MsgCreatePlan.ValidateBasic
-  if !curveValid mRaw nRaw cRaw then .error .rej
-  else if alloc ≤ 10 * oneToken then .error .rej
-  else if planDur < 0 then .error .rej
-  else if liqPart.raw < 0 ∨ decP < liqPart.raw then .error .rej
-  else if vestDur < 0 ∨ vestStartAfter < 0 then .error .rej
-  -- msgServer.CreatePlan
-  else if planDur < st.cfg.minPlanDur then .error .rej
-  else if liqPart.raw < st.cfg.minLiqPart.raw then .error .rej
-  else if vestDur < st.cfg.minVestDur then .error .rej
-  else if st.plan.isSome then .error .rej
-  else if alloc ≠ st.cfg.genAlloc then .error .rej
-  else if L ≠ st.cfg.liqDec then .error .rej
-  else
-  -- Keeper.CreatePlan
-  let maxSell := findEquilibrium mRaw nRaw alloc liqPart
-  let start := if enabled then (if startTime < st.now then st.now else startTime) else 0
-  let pre := if enabled then start + planDur else 0
-  -- Plan.ValidateBasic
-  if pre < start then .error .rej
-  else if maxSell ≤ 0 ∨ alloc < maxSell then .error .rej
-  else
-  let c := cost I L 0 st.cfg.creationFee
-  if c ≤ 0 then .error .rej
-  else if st.liq 0 < c then .error .rej
-  else
-  let p : Plan := { L := L, alloc := alloc, maxSell := maxSell, sold := st.cfg.creationFee,
-                    claimed := st.cfg.creationFee, enabled := enabled, startTime := start, preLaunch := pre,
-                    planDur := planDur, liqPart := liqPart, settled := false,
-                    vest := { dur := vestDur, startAfter := vestStartAfter } }
-  .ok { st with plan := some p, modIro := st.modIro + alloc, liq := upd st.liq 0 (st.liq 0 - c),
-                planLiq := st.planLiq + c }
+  if createOk I st alloc mRaw nRaw cRaw L enabled startTime planDur liqPart vestDur vestStartAfter then
+  .ok { st with
+    plan := some { L := L, alloc := alloc, maxSell := findEquilibrium mRaw nRaw alloc liqPart,
+                   sold := st.cfg.creationFee, claimed := st.cfg.creationFee, enabled := enabled,
+                   startTime := planStart enabled startTime st.now,
+                   preLaunch := planPre enabled (planStart enabled startTime st.now) planDur,
+                   planDur := planDur, liqPart := liqPart, settled := false,
+                   vest := { dur := vestDur, startAfter := vestStartAfter } },
+    modIro := st.modIro + alloc, liq := upd st.liq 0 (st.liq 0 - cost I L 0 st.cfg.creationFee),
+    planLiq := st.planLiq + cost I L 0 st.cfg.creationFee }
+  else .error .rej
 
 def doBuy (I : Int → Int) (st : State) (a : Nat) (amt maxCost : Int) : Except Err State :=
   if amt ≤ 0 ∨ maxCost ≤ 0 then .error .invalid else
